@@ -50,6 +50,14 @@ def run(repo: Repo, rep, tier: str):
     none_safety(repo, rep, "C01", secs)
     slot_terminators(repo, rep, "C01")
     clone_rule(repo, rep, "C01")
+    # controller values and MIDI bindings: one positional entry per attached controller on both sides
+    from . import c02
+    c02.sibling_writers(repo, rep, "C01")
+    from . import c11
+    c11.pack_unpack(repo, rep, "C01", "R10")       # options record: options_chunks ∘ load_options per option (shared with C11)
+    # modules built through the API own their payload tables (a table shared with a sibling module is saved with the sibling's edits)
+    from . import c17
+    c17.array_chunk_defaults_rule(repo, rep, "C01", "R9", floor=4)
     rep.sample({"section": "project", "rows": [f"{w.cid}:{w.payload.shape}:{w.payload.fmt.show() if w.payload.fmt else ''}:{w.payload.src}"
                                                 for w in secs["project"].writer if w.kind == "chunk"][:8]})
 
